@@ -52,6 +52,8 @@ PROPS = {
     'C14': dict(suites=[('hash', [])], column='kv', relevant=lambda r: r['name'] in HASH_CMDS, title='Hash commands'),
     'C15': dict(suites=[('list', [])], column='kv', relevant=lambda r: r['name'] in LIST_CMDS, title='List commands'),
     'C16': dict(suites=[('set', [])], column='kv', relevant=lambda r: r['name'] in SET_CMDS, title='Set commands'),
+    'C02': dict(suites=[('aof', [])], column='dur', clscol='dcls', relevant=lambda r: 'C02' in r['f'].get('own', ''), title='Append-only log durability'),
+    'C09': dict(suites=[('aof', [])], column='dur', clscol='dcls', relevant=lambda r: 'C09' in r['f'].get('own', ''), title='Log rewrite transparent and crash-atomic'),
     'C19': dict(suites=ALL_DATA, column='mem', clscol='mcls', relevant=lambda r: True, title='Memory figure is a function of the dataset'),
     'C20': dict(suites=ALL_DATA, column='iso', relevant=lambda r: True, title='Logical databases are isolated'),
 }
@@ -258,6 +260,12 @@ def run_suite(cx, work, suite, args, seed, tier, replay=None):
                 name = 'authorize'
             rows.append(dict(seq=seq, now=0, db=0, cmd=cmd, kind=kind, payload=payload, pre='', post='', name=name,
                              model=m[0], detail=m[1], f=m[2], suite=suite, line=l[0]))
+        elif l.startswith('X '):
+            w = l.split(' ', 12)
+            seq = w[1]
+            m = verd.get(seq, ('?', 'no verdict', {}))
+            rows.append(dict(seq=seq, now=0, db=0, cmd=[w[3].encode()], kind='image', payload=b'', pre='', post='x', name='image@' + w[3].split('>')[0].split('~')[0].split('+')[0],
+                             model=m[0], detail=m[1], f=m[2], suite=suite, line='X'))
         elif l.startswith('T '):
             t = parse_tline(l.rstrip('\n'))
             m = verd.get(t['seq'], ('?', 'no verdict', {}))
@@ -278,6 +286,12 @@ def run_suite(cx, work, suite, args, seed, tier, replay=None):
 def seq_prefix(seqmap, seqid):
     if seqid in seqmap and ('z' in seqmap[seqid] or 'writes' in seqmap[seqid]):
         return seqmap[seqid]                      # a single authorization decision / one wire session
+    parts = seqid.split('.')
+    if parts[0] in seqmap and 'mode' in seqmap[parts[0]]:
+        # persistence history: <sid>.<op>.<image…>; keep every option of the history, cut the ops
+        s = seqmap[parts[0]]
+        idx = int(re.sub(r'\D', '', parts[1]) or 0)
+        return dict(s, ops=s['ops'][:idx + 1])
     sid, idx = seqid.rsplit('.', 1)
     s = seqmap.get(sid)
     if s is None:
@@ -310,6 +324,20 @@ def replay_seq(cx, work, suite, seq, tag):
     return rows
 
 
+def pick_row(rows, column, clscol=None, cls=None):
+    """the row a replay is judged by: the last one, except for persistence histories (many images per
+    history) where it is the first failing image (of class `cls` if given)"""
+    if not rows:
+        return None
+    if rows[-1].get('line') == 'X' or any(r.get('line') == 'X' for r in rows):
+        for r in rows:
+            if r.get('line') == 'X' and failing(r, column) and (cls is None or r['f'].get(clscol) == cls):
+                return r
+        xs = [r for r in rows if r.get('line') == 'X']
+        return xs[-1] if xs else rows[-1]
+    return rows[-1]
+
+
 def failing(row, column):
     """does this row witness a departure: model diff / hang, or a spec rejection in `column`"""
     v = row['f'].get(column, 'na')
@@ -335,7 +363,7 @@ def shrink(cx, work, suite, seq, pred, budget=60):
             rows = replay_seq(cx, work, suite, cand, 'shrink')
         except Exception:
             rows = []
-        if rows and pred(rows[-1]):
+        if rows and (any(pred(r) for r in rows if r.get('line') == 'X') if any(r.get('line') == 'X' for r in rows) else pred(rows[-1])):
             ops = cand['ops']
         else:
             i += 1
@@ -414,7 +442,7 @@ def decide(cx, prop, tier, seed, t_start):
             except Exception as e:
                 notes.append('witness of %s could not be replayed: %s' % (k['class'], e))
                 continue
-            last = rows[-1] if rows else None
+            last = pick_row(rows, spec['column'], spec.get('clscol', 'cls'), k['class'])
             v = last['f'].get(spec['column'], 'na') if last else 'na'
             if last and v.startswith('rej') and last['f'].get(spec.get('clscol', 'cls')) == k['class']:
                 out_lines.append('KNOWN-FINDING: property=%s %s: %s' % (prop, k['class'], k['fails']))
